@@ -265,9 +265,19 @@ func prefixedForwarding(c *an.Ctx, rule string) {
 		c.Check(good, rule, an.Short(w)+":advance", rem.Pos(), "the input advances by exactly what the scanner consumed", "after a line the input does not advance by the scanner's advance: "+an.Prov(e))
 	}
 	// per iteration: advance ≠ 0, no error → write(line) before going round
-	ex := &an.Explorer{P: p, NoReturn: noReturn}
+	// (helpers of pkg/output such as an extracted emitLine are inlined; the line is followed into them by identity)
+	inlinable := func(f *ssa.Function) bool { return f != nil && f.Blocks != nil && an.Outer(f).Pkg == w.Pkg && f != w }
+	ex := &an.Explorer{P: p, NoReturn: noReturn, MaxDepth: 2, Inline: inlinable}
 	loop.Bound(ex)
 	ex.Atom = func(v ssa.Value) (an.AVal, bool) {
+		if call, ok := v.(*ssa.Call); ok && inlinable(call.Call.StaticCallee()) {
+			return an.AVal{}, false
+		}
+		if c2, ok := v.(*ssa.Extract); ok {
+			if call, ok := c2.Tuple.(*ssa.Call); ok && inlinable(call.Call.StaticCallee()) {
+				return an.AVal{}, false
+			}
+		}
 		for _, e := range errOf(scan) {
 			if v == e {
 				return an.AVal{K: an.ANil}, true
@@ -295,7 +305,7 @@ func prefixedForwarding(c *an.Ctx, rule string) {
 			return ""
 		}
 		if an.ShortCallee(&call.Call) == "(*bufio.Writer).Write" && isBuf(call.Call.Args[0]) {
-			if isOneOf(call.Call.Args[1], line) {
+			if isOneOf(call.Call.Args[1], line) || isOneOf(st.Root(call.Call.Args[1]), line) {
 				return "write(line)"
 			}
 			return "write(" + an.Prov(call.Call.Args[1]) + ")"
